@@ -436,10 +436,19 @@ Definition read_hyperslab (lay : layout) (full dims : list N) (h : hsel) : optio
   | Err => None
   | Ok => Some (dispatch lay full dims (axes_of h (length dims)))
   end.
+(* ReadSlice: its own bounds loop, then readHyperslab: an empty selection (output size 0) is left to the readers;
+   otherwise validateHyperslabSelection runs once more, on the filled selection (Stride = Block = all ones), which
+   refuses more than MaxHyperslabElements elements (utils.CalculateHyperslabElements) *)
 Definition read_slice (lay : layout) (full dims start count : list N) : option (list N) :=
   match slice_validate start count dims with
   | Err => None
-  | Ok => Some (dispatch lay full dims (slice_axes start count))
+  | Ok =>
+      let s := slice_axes start count in
+      if out_elems s =? 0 then Some (dispatch lay full dims s) else
+      match validate (mkSel start count (Some (ones (length dims))) (Some (ones (length dims)))) dims with
+      | Err => None
+      | Ok => Some (dispatch lay full dims s)
+      end
   end.
 
 (* ---- chunk iterator.  The B-tree of a dataset written by the library holds one key per
